@@ -240,9 +240,25 @@ def gost_jobs():
                          pre_instrument=[["--replace-call-with-contract", "gost3411_2012_XSLP"]],
                          cbmc=["--unwind", "66", "--unwinding-assertions", "--object-bits", "10"], route="finite",
                          tier=tier, timeout=900, assumptions=[A_SIMD, A_ORACLE]))
+    jobs.append(t_job("gost.SLP", "harness/C04/gost_T.c", ["VF_GOST_T", "VF_GOST_XSLP=5"], "gost3411_2012_SLP", 64,
+                      timeout=600, extra=dict(assumptions=[A_SIMD, A_CVC5, A_TAB])))
+    jobs.append(t_job("gost.small.SLP", "harness/C04/gost_T.c",
+                      ["VF_GOST_T", "GOST3411_2012_USE_SMALL_TABLES", "VF_GOST_USE_LIB_SMALL", "VF_GOST_XSLP=5"], "gost3411_2012_SLP", 64,
+                      timeout=600, extra=dict(assumptions=[A_SIMD, A_CVC5, "small-table build, scatter spelling of the specification (see gost.small.XSLP.*)"])))
+    def COMP0(name, fn, small=False):
+        jobs.append(dict(name="gost.T.g0." + name, harness="harness/C04/gost_T_comp.c", mode="plain",
+                         defines=["VF_T1", "VF_T_FN=" + fn] + (["GOST3411_2012_USE_SMALL_TABLES"] if small else []),
+                         functions=[fn],
+                         pre_instrument=[["--replace-call-with-contract", "gost3411_2012_XSLP", "--replace-call-with-contract", "gost3411_2012_SLP"]],
+                         cbmc=["--unwind", "66", "--unwinding-assertions", "--object-bits", "10"], route="finite",
+                         timeout=900, assumptions=[A_SIMD, A_ORACLE + "; gost3411_2012_SLP likewise (jobs gost.SLP, gost.small.SLP)"]))
+    COMP0("comp", "gost3411_2012_transform_1_generic")
+    COMP0("comp.dispatch", "gost3411_2012_transform_1")
+    COMP0("small.comp", "gost3411_2012_transform_1_generic", small=True)
     COMP("align0", [])
     COMP("align1", ["VF_ALIGN=1"])
-    COMP("dispatch.n2", ["VF_T_NBLK=2", "VF_T_FN=gost3411_2012_transform_n"])
+    COMP("dispatch.n2", ["VF_T_NBLK=2", "VF_T_FN=gost3411_2012_transform_n"], tier="thorough")
+    COMP("dispatch", ["VF_T_FN=gost3411_2012_transform_n"])
     for r in (2, 3, 4, 5, 6, 7):
         COMP("align%d" % r, ["VF_ALIGN=%d" % r], tier="thorough")
     # small-table build variant
@@ -250,6 +266,15 @@ def gost_jobs():
                      defines=["VF_GOST_T", "VF_GOST_TABLES", "GOST3411_2012_USE_SMALL_TABLES"], functions=[],
                      cbmc=["--unwind", "260", "--unwinding-assertions"], route="finite", timeout=300,
                      assumptions=["-DGOST3411_2012_USE_SMALL_TABLES build: sbox, A, tau (table form) and C compared entry by entry with RFC 6986 5.2-5.5"]))
+    jobs.append(dict(name="gost.lemma.lps_forms", harness="harness/C04/gost_T.c", mode="plain", defines=["VF_GOST_T", "VF_GOST_LEMMA"],
+                     functions=[], cbmc=["--unwind", "66", "--unwinding-assertions"], backend="cvc5", route="finite", timeout=300,
+                     assumptions=["specification-internal lemma: scatter spelling of P o S (used for the small-table T jobs) == gather spelling (definition)"]))
+    for k in (1, 2, 3, 4):
+        jobs.append(t_job("gost.small.XSLP.s%d" % k, "harness/C04/gost_T.c",
+                          ["VF_GOST_T", "GOST3411_2012_USE_SMALL_TABLES", "VF_GOST_USE_LIB_SMALL", "VF_GOST_XSLP=%d" % k], "gost3411_2012_XSLP", 64,
+                          timeout=900, extra=dict(assumptions=[A_SIMD, A_CVC5,
+                              "-DGOST3411_2012_USE_SMALL_TABLES build; specification LPS in scatter spelling over the library's sbox/A tables "
+                              "(gost.small.tables: tables == RFC 6986; gost.lemma.lps_forms: scatter == definition)"])))
     COMP("small.align0", [], small=True)
     COMP("small.align1", ["VF_ALIGN=1"], small=True)
     gu = u_jobs("gost", a, [a["D"]], 64, 0)
